@@ -17,8 +17,9 @@ func main() {
 		for round := 0; round < 40; round++ {
 			object.VerifResetTypeCaches()
 			var wg sync.WaitGroup
+			bodies := sc.Make()
 			for rep := 0; rep < 4; rep++ {
-				for _, b := range sc.Make() {
+				for _, b := range bodies {
 					b := b
 					wg.Add(1)
 					go func() {
